@@ -103,6 +103,11 @@ class Find(Suite):
                 det = rng.random() < 0.7
                 out.append(dict(det=det, q=q, tasks=tasks, via=rng.choice(['fn', 'fn', 'chain', 'inputs']) if det
                                 else 'fn'))
+                if rng.random() < 0.4:
+                    # the same question in the other mode (lookup from a chain vs. from a dependant), right afterwards:
+                    # an answer must not depend on what was asked before
+                    out.append(dict(det=not det, q=q, tasks=tasks, via='fn'))
+                    out.append(dict(det=det, q=q, tasks=tasks, via='fn'))
             if len(tasks) <= 4 and rng.random() < 0.3:  # all declaration orders for small sets
                 q = qs[0]
                 for perm in itertools.permutations(tasks):
